@@ -318,6 +318,17 @@ def oracle(case, ignore_k1=False):
                 k1_shape = n in ("add1", "addl") and bool(op[2])
                 if not k1_shape:
                     return "%s raised ValueError but changed %s" % (where, ", ".join(diff))
+                # the known finding K1 is this and nothing else: the raising add has added EVERY block of the call (duplicates
+                # wrapped), as documented and pinned by tests/test_library.py. Any other state after the ValueError is a
+                # different violation of "a call that raises leaves the library equal to what it was"
+                now = list(lib.blocks)
+                documented = (len(now) == len(before_objs) + len(args) and all(x is y for x, y in zip(before_objs, now))
+                              and all(got is a or (isinstance(got, M.DuplicateBlockKeyBlock) and got.ignore_error_block is a)
+                                      for a, got in zip(args, now[len(before_objs):])))
+                if not documented:
+                    return ("%s(fail_on_duplicate_key=True) raised ValueError and left the library neither as it was nor in the "
+                            "documented state of known finding K1 (every block of the call added, duplicates wrapped): %d blocks "
+                            "before, %d in the call, %d after" % (where, len(before_objs), len(args), len(now)))
                 if k1_seen is None:
                     k1_seen = "%s(fail_on_duplicate_key=True) raised ValueError but changed %s" % (where, ", ".join(diff))
             continue
